@@ -146,6 +146,54 @@ def run(ctx):
                 wk.close()
     finally:
         shutil.rmtree(base, ignore_errors=True)
+    # the header of a kept function (default values, decorator): a module variable that only appears there is observed through the
+    # default value it gives - not at all when the call passes that parameter, and the path given to the decorator is not an
+    # input of the function. Editing such a variable re-executes only the kept functions that take the default.
+    import sys
+    real = pipeline.real_runner()
+    HSRC = ("import dds\nfrom ddsverif_rt import log, term\n\nFACTOR = %d\nOUT = %r\nUNUSED = %d\n\n"
+            "def scale(x, factor=FACTOR):\n    log('scale')\n    return term('scale', x, factor)\n\n"
+            "def scale_d(x, factor=FACTOR):\n    log('scale_d')\n    return term('scale_d', x, factor)\n\n"
+            "def scale_kw(x, factor=FACTOR, unit='m'):\n    log('scale_kw')\n    return term('scale_kw', x, factor, unit)\n\n"
+            "@dds.data_function(OUT)\ndef table():\n    log('table')\n    return term('table')\n\n"
+            "def f0():\n    return term('f0', dds.keep('/h/scaled', scale, 3, 10), dds.keep('/h/dflt', scale_d, 3), "
+            "dds.keep('/h/kw', scale_kw, 4, factor=7), table())\n")
+    for hi, store_kind in enumerate(["memory", "local"]):
+        hbase = tempfile.mkdtemp(prefix="ddsverif_c02h_")
+        pkg = "c2h_%d_%d" % (os.getpid(), hi)
+        try:
+            real.reset_process_state()
+            real.set_store(store_kind, os.path.join(hbase, "si"), os.path.join(hbase, "sd"))
+            # (FACTOR, OUT, UNUSED), the kept functions that may run at this step
+            steps = [((2, "/h/v1", 0), None), ((5, "/h/v1", 0), {"scale_d"}), ((5, "/h/v2", 0), set()), ((5, "/h/v2", 1), set()),
+                     ((2, "/h/v1", 1), set()), ((9, "/h/v3", 1), {"scale_d"})]
+            for si, (vals, may_run) in enumerate(steps):
+                src = HSRC % vals
+                os.makedirs(os.path.join(hbase, pkg), exist_ok=True)
+                open(os.path.join(hbase, pkg, "__init__.py"), "w").close()
+                with open(os.path.join(hbase, pkg, "main.py"), "w") as fh:
+                    fh.write(src)
+                real.load_world(hbase, pkg + ".main", None, accept=pkg)
+                r = real.run({"kind": "eval", "fun": "f0"})
+                res.evaluations += 1
+                res.count("header_variable_steps")
+                res.nontrivial("header %s %d" % (store_kind, si))
+                want = "f0(scale(3,10),scale_d(3,%d),scale_kw(4,7,m),table())" % vals[0]
+                ran = [x for x in r["log"] if x in ("scale", "scale_d", "scale_kw", "table")]
+                bad = None
+                if r["error"] is not None or r["value"] != want:
+                    bad = "value %r (error %s), plain execution gives %r" % (r["value"], r["error"], want)
+                elif may_run is not None and set(ran) - may_run:
+                    bad = ("an edit of a module variable that appears only in the header of kept functions (FACTOR, OUT, UNUSED = %r) re-executed %s, "
+                           "which cannot observe it (the call passes the parameter / the variable is the path of the decorator)" % (vals, sorted(set(ran) - may_run)))
+                if bad:
+                    res.violations.append({"what": bad, "input": {"source": src, "store": store_kind, "step": si, "history": [v for (v, _) in steps[: si + 1]]}, "kf": None})
+                    break
+        finally:
+            shutil.rmtree(hbase, ignore_errors=True)
+            for k in list(sys.modules):
+                if k.split(".")[0] == pkg:
+                    del sys.modules[k]
     from . import kf_witnesses
     kf_witnesses.run_witness(res, "C02-KF1", kf_witnesses.c02_from_import_object,
                              "a function reading a non-accepted object imported with 'from m import obj' is recomputed when its file is copied to another accepted module")
